@@ -193,6 +193,7 @@ long g_psize;               /* payload size by the format specification */
 int g_jumbo;
 unsigned char w_flags;
 int w_old_is_jumbo;
+long w_evpsize;             /* = g_psize, for the native replay */
 WITNESS(emu_ev);
 #define EVB(oev) ((const uint8_t *) (oev))
 
@@ -206,7 +207,7 @@ __CPROVER_requires(g_psize == sp_payload(EVB(oev), 0) && g_jumbo == SP_JUMBO(EVB
 __CPROVER_requires(w_evobj == 12UL + (unsigned long) g_psize || (g_jumbo && g_psize < 16 && w_evobj == 28))
 /* (int64_t) of a u64 >= 2^63 is implementation-defined (flagged by CBMC's conversion check) */
 __CPROVER_requires(SP_CLOCK(EVB(oev), 0) <= (unsigned long) I64_MAX)
-__CPROVER_requires(WBIND(emu_ev, w_flags == SP_FLAGS(EVB(oev), 0) && w_old_is_jumbo == ev->is_jumbo))
+__CPROVER_requires(WBIND(emu_ev, w_flags == SP_FLAGS(EVB(oev), 0) && w_old_is_jumbo == ev->is_jumbo && w_evpsize == g_psize))
 __CPROVER_assigns(ev->m, ev->c, ev->v, ev->mcv[3], ev->rclock, ev->sclock, ev->dclock,
 	ev->payload_size, ev->has_payload, ev->payload, ev->is_jumbo)
 /* model, category, value copied; mcv is a nil-terminated string of them */
